@@ -90,6 +90,8 @@ type Worker struct {
 	initState map[*ssa.Package]int
 	initDepth int
 	finfo     map[*ssa.Function]*FuncInfo
+	harnessFn map[*ssa.Function]bool
+	npaths    int
 	strConsts map[string]int
 	globalWriteOK map[string]bool
 
@@ -663,8 +665,8 @@ func (e *Engine) runAll() {
 		wg.Add(1)
 		go func(id int) {
 			defer wg.Done()
-			w := e.newWorker(id)
-			defer w.sol.Close()
+			w := e.newWorker(id, nil)
+			defer func() { w.sol.Close() }()
 			for {
 				it, ok := e.take()
 				if !ok {
@@ -685,6 +687,11 @@ func (e *Engine) runAll() {
 					over = true
 				}
 				if !over {
+					w.npaths++
+					if w.npaths%2000 == 0 {
+						// bound memory: fresh term store and base heap (the solver process is kept)
+						w = e.newWorker(id, w)
+					}
 					end, err := w.runPath(h, it.prefix)
 					if e.verbose {
 						fmt.Fprintf(os.Stderr, "[w%d] %s path end=%s depth=%d err=%v\n", id, h.Name, end, len(w.decisions), err)
@@ -704,15 +711,20 @@ func (e *Engine) runAll() {
 	wg.Wait()
 }
 
-func (e *Engine) newWorker(id int) *Worker {
+func (e *Engine) newWorker(id int, old *Worker) *Worker {
 	ts := NewTermStore()
 	w := &Worker{id: id, prog: e.prog, ts: ts, eng: e,
 		baseObjs: map[int]*Obj{}, globals: map[*ssa.Global]int{}, initState: map[*ssa.Package]int{},
-		finfo: map[*ssa.Function]*FuncInfo{}, strConsts: map[string]int{},
+		finfo: map[*ssa.Function]*FuncInfo{}, harnessFn: map[*ssa.Function]bool{}, strConsts: map[string]int{},
 		instrLimit: 20_000_000, unwindLimit: 100_000, funcsSeen: map[string]bool{},
 		globalWriteOK: map[string]bool{},
 	}
-	w.sol = NewSolver(e.solver, ts, 60)
+	if old != nil {
+		w.sol = old.sol
+		w.sol.ts = ts
+	} else {
+		w.sol = NewSolver(e.solver, ts, 60)
+	}
 	return w
 }
 
